@@ -1,9 +1,7 @@
 """Generates the CrossHair condition functions for C23 (one module per size bound SZ)."""
 
-HEAD = '''from harness.C23_local import (DATA, azure_read_range_ok, azure_read_range_outcome, azure_seq_ok, azure_seq_outcome,
-                                local_open_read_ok, local_open_read_outcome, local_read_loop_ok,
-                                local_read_loop_outcome, local_read_range_ok, local_read_range_outcome,
-                                readexactly_ok, readexactly_outcome)
+HEAD = '''from harness.C23_local import (local_open_read_ok, local_open_read_outcome, local_read_range_ok,
+                                local_read_range_outcome, readexactly_ok, readexactly_outcome)
 
 '''
 
@@ -28,56 +26,6 @@ CONDS = {
         'local_open_read_ok(size, start, length if haslen else None)',
         "not (local_open_read_outcome(size, start, length if haslen else None)[0] == 'ok' and haslen "
         "and length >= 1 and start + length < size)",
-    ),
-    'lloop': (
-        'size: int, start: int, haslen: bool, length: int, n1: int, s1: int, s2: int',
-        ['0 <= size <= {SZ} and 0 <= start <= {SZ1} and 0 <= length <= {SZ1}',
-         '0 <= n1 <= {SZ1} and 0 <= s1 <= {SZ} and 0 <= s2 <= {SZ}'],
-        'local_read_loop_ok(size, start, length if haslen else None, [n1], [s1, s2])',
-        "not (local_read_loop_outcome(size, start, length if haslen else None, [n1], [s1, s2])[0] == 'ok' "
-        "and haslen and length >= 2 and n1 == 1 and s2 == 1 and start + length < size)",
-    ),
-    'azrr': (
-        'size: int, start: int, end: int, incl: bool, c1: int, c2: int',
-        ['0 <= size <= {SZ} and 0 <= start <= {SZ1} and start - 1 <= end <= {SZ2}',
-         'incl or end >= start', '0 <= c1 <= {SZ} and 0 <= c2 <= {SZ}'],
-        'azure_read_range_ok(size, start, end, incl, [c1, c2])',
-        "not (azure_read_range_outcome(size, start, end, incl, [c1, c2])[0] == 'ok' and end > start and c1 == 1)",
-    ),
-    # Azure, no length: sized reads then read-to-end.  Region K416 (sized reads consumed exactly up to EOF without a
-    # short read, then read()) is split off.
-    'azseq_main': (
-        'size: int, start: int, n1: int, n2: int, c1: int',
-        ['0 <= size <= {SZ} and 0 <= start <= {SZ1} and 0 <= n1 <= {SZ1} and 0 <= n2 <= {SZ1} and 0 <= c1 <= {SZ}',
-         'not (size - start > 0 and n1 + n2 == size - start)'],
-        'azure_seq_ok(size, start, None, [n1, n2], [c1])',
-        "not (azure_seq_outcome(size, start, None, [n1, n2], [c1])[0] == 'ok' and n1 >= 1 and n2 >= 1 "
-        "and size - start > n1 + n2)",
-    ),
-    'azseq_k416': (
-        'size: int, start: int, n1: int, n2: int, c1: int',
-        ['0 <= size <= {SZ} and 0 <= start <= {SZ1} and 0 <= n1 <= {SZ1} and 0 <= n2 <= {SZ1} and 0 <= c1 <= {SZ}',
-         'size - start > 0 and n1 + n2 == size - start'],
-        'azure_seq_ok(size, start, None, [n1, n2], [c1])',
-        None,
-    ),
-    # Azure with a length: region KLEN (the object extends past the requested range) is split off.
-    'azlen_main': (
-        'size: int, start: int, length: int, n1: int, n2: int, c1: int',
-        ['0 <= size <= {SZ} and 0 <= start <= {SZ1} and 1 <= length <= {SZ1}',
-         '0 <= n1 <= {SZ1} and 0 <= n2 <= {SZ1} and 0 <= c1 <= {SZ}',
-         'size <= start + length', 'not (size - start > 0 and n1 + n2 == size - start)'],
-        'azure_seq_ok(size, start, length, [n1, n2], [c1])',
-        "not (azure_seq_outcome(size, start, length, [n1, n2], [c1])[0] == 'ok' and n1 >= 1 and n2 >= 1 "
-        "and size - start > n1 + n2)",
-    ),
-    'azlen_klen': (
-        'size: int, start: int, length: int, n1: int, n2: int, c1: int',
-        ['0 <= size <= {SZ} and 0 <= start <= {SZ1} and 1 <= length <= {SZ1}',
-         '0 <= n1 <= {SZ1} and 0 <= n2 <= {SZ1} and 0 <= c1 <= {SZ}',
-         'size > start + length'],
-        'azure_seq_ok(size, start, length, [n1, n2], [c1])',
-        None,
     ),
 }
 
